@@ -18,12 +18,12 @@ PROP_CHECKS = {
     "C03": ["C03_RawRefs", "C03_RawLogs", "C03_SeekRef", "C03_SeekLog", "C03_RefView", "C03_LogView", "C03_StableResults", "C10_Readable"],
     "C07": ["C07_RefView", "C07_LogView", "C07_CompactedTables", "C07_StackAfterCompact", "C07_SpecViewPreserved", "C17_AutoCompactRange",
             "C04_CompactResult", "C10_Readable"],
-    "C09": ["C09_StaleAddMustFail", "C09_DirUnchanged", "C09_StaleCompactNoop", "C09_UpToDate", "C09_NextIndex", "C09_RefView", "C09_LogView",
+    "C09": ["C09_StaleAddMustFail", "C09_DirUnchanged", "C09_StaleCompactNoop", "C09_StaleCleanNoop", "C09_UpToDate", "C09_NextIndex", "C09_RefView", "C09_LogView",
             "C04_AddResult", "C04_StackAfterAdd"],
     "C10": ["C10_Readable", "C10_OpenFails", "C10_ReloadFails", "C10_RefView", "C10_LogView", "C10_UpToDate"],
     "C11": ["C11_RefsFor"],
     "C12": ["C12_AcceptIffLegal", "C12_NoConflict", "C12_RefView"],
-    "C16": ["C16_SeqNoLockNoTemp", "C16_SeqNoOrphanTable", "C10_Readable", "C04_CompactResult"],
+    "C16": ["C16_SeqNoLockNoTemp", "C16_SeqNoOrphanTable", "C16_CleanKeepsList", "C16_CleanSucceeds", "C10_Readable", "C04_CompactResult"],
     "C13": ["C13_RefView", "C13_LogView", "C13_SpecExpiryExact", "C07_CompactedTables", "C07_StackAfterCompact", "C04_CompactResult"],
 }
 
@@ -167,6 +167,9 @@ def gen_c09(rng, i):
             g.steps.append({"op": "compact", "h": h, "first": f, "last": rng.randint(f + 1, max(f + 1, ntab - 1))})
         else:
             g.steps.append({"op": "view", "h": h, "tag": "C09", "hasraw": False})
+        if rng.random() < 0.25:
+            # Clean through a handle that may be out of date (another handle compacted or added meanwhile): nothing may change
+            g.steps.append({"op": "clean", "h": rng.randint(1, nh)})
         g.steps.append({"op": "disk", "h": h, "after": "add"})
     return g.history("c09-%d" % i)
 
@@ -347,6 +350,8 @@ def gen_c16(rng, i):
             g.steps.append({"op": "compact", "h": h, "first": 0, "last": rng.randint(1, 2)})
         elif y < 0.55:
             g.steps.append({"op": "compact", "h": h, "all": True, "expiry": {"time": rng.choice([0, 30]), "min": rng.choice([0, 99]), "max": 0}})
+        if rng.random() < 0.25:
+            g.steps.append({"op": "clean", "h": rng.randint(1, nh)})      # also through a handle that is out of date
         if rng.random() < 0.3:
             g.steps.append({"op": "view", "h": h, "tag": "C16", "hasraw": False})
     return g.history("c16-%d" % i)
